@@ -293,7 +293,7 @@ PROPS = {
     },
     "C16": {
         "level": "proof",
-        "lean_targets": ["LP.Props.C16"],
+        "lean_targets": ["LP.Props.C16", "LP.Props.C16Fm"],
         "harnesses": [{"name": "h_infer", "quick": 1500, "thorough": 40000}],
         "select": lambda t: t[1] == "inf" and t[2] != "fmout",      # the state of the output object is C19's business
         "nontrivial": lambda t, r: not (len(r) >= 1 and r[0] == "0"),
